@@ -220,3 +220,142 @@ Proof.
     intros Q; inversion Q; subst. lia. }
   discriminate.
 Qed.
+
+(* ------------------------------------------------------------------------------------------ *)
+(* the receive side never looks at the "already sent" bit of a queued message (except when the queue
+   has to be compacted) *)
+Definition strip (e : entry) : Z * Z * Z * bool := (ect e, epid e, esz e, eacked e).
+Definition qeq (q1 q2 : list entry) : Prop := map strip q1 = map strip q2.
+
+Lemma cons_inj {A} (a b : A) l m : a :: l = b :: m -> a = b /\ l = m.
+Proof. intros H; inversion H; auto. Qed.
+Lemma qeq_refl q : qeq q q. Proof. reflexivity. Qed.
+Lemma qeq_sym a b : qeq a b -> qeq b a. Proof. unfold qeq; congruence. Qed.
+Lemma qeq_trans a b c : qeq a b -> qeq b c -> qeq a c. Proof. unfold qeq; congruence. Qed.
+Lemma qeq_len a b : qeq a b -> len a = len b.
+Proof. unfold qeq, len; intros H. apply (f_equal (@length _)) in H. rewrite !map_length in H. lia. Qed.
+Lemma qeq_used a b : qeq a b -> used a = used b.
+Proof.
+  unfold qeq. revert b; induction a as [|x a IH]; intros [|y b] H; try discriminate; [reflexivity|].
+  cbn [map] in H. apply cons_inj in H. destruct H as [S T]. cbn [used fold_right]. fold (used a). fold (used b).
+  rewrite (IH b) by assumption. unfold strip in S. inversion S. lia.
+Qed.
+Lemma qeq_currsz a b : qeq a b -> currsz a = currsz b.
+Proof. intros H; unfold currsz. rewrite (qeq_len _ _ H), (qeq_used _ _ H). reflexivity. Qed.
+Lemma qeq_app a b c d : qeq a b -> qeq c d -> qeq (a ++ c) (b ++ d).
+Proof. unfold qeq; intros; rewrite !map_app; congruence. Qed.
+
+Definition nf (ct : Z) (opid : option Z) : Prop := opid = None -> fire_and_forget ct = false.
+Lemma matches_strip ct opid e1 e2 : nf ct opid -> strip e1 = strip e2 -> matches ct opid e1 = matches ct opid e2.
+Proof.
+  intros N S. unfold strip in S. inversion S as [[A B C D]]. unfold matches. rewrite A.
+  destruct opid as [p|]; [rewrite B; reflexivity|].
+  destruct (ect e2 =? ct) eqn:E; [|reflexivity]. apply Z.eqb_eq in E.
+  unfold complete. rewrite A, E, (N eq_refl), !andb_false_r, !orb_false_r, D. reflexivity.
+Qed.
+
+Lemma ack_first_qeq p q1 q2 : qeq q1 q2 -> (forall e1 e2, strip e1 = strip e2 -> p e1 = p e2) ->
+  match ack_first p q1, ack_first p q2 with
+  | Some a, Some b => qeq a b | None, None => True | _, _ => False end.
+Proof.
+  intros Q P. revert q2 Q. induction q1 as [|x q1 IH]; intros [|y q2] Q; try discriminate; cbn [ack_first]; [exact I|].
+  unfold qeq in Q. cbn [map] in Q. apply cons_inj in Q. destruct Q as [S T]. rewrite (P x y S).
+  destruct (p y).
+  - unfold qeq. cbn [map]. f_equal; [|assumption]. unfold strip, set_acked in *; cbn. congruence.
+  - specialize (IH q2 T). destruct (ack_first p q1), (ack_first p q2); try contradiction; [|exact I].
+    unfold qeq in *. cbn [map]. congruence.
+Qed.
+Lemma existsb_qeq p q1 q2 : qeq q1 q2 -> (forall e1 e2, strip e1 = strip e2 -> p e1 = p e2) -> existsb p q1 = existsb p q2.
+Proof.
+  intros Q P. revert q2 Q. induction q1 as [|x q1 IH]; intros [|y q2] Q; try discriminate; [reflexivity|].
+  unfold qeq in Q. cbn [map] in Q. apply cons_inj in Q. destruct Q as [S T]. cbn [existsb]. rewrite (P x y S), (IH q2 T). reflexivity.
+Qed.
+
+Definition new_entry (ct pid sz : Z) : entry := {| ect := ct; epid := pid; esz := sz; esent := false; eacked := false |}.
+Lemma try_pack_loose ct pid sz q r : try_pack ct pid sz q = (r, false) -> r = Some (q ++ [new_entry ct pid sz]) /\ sz <= currsz q.
+Proof.
+  unfold try_pack. destruct (sz <=? currsz q) eqn:E.
+  - intros H; inversion H. apply Z.leb_le in E. auto.
+  - destruct (sz <=? currsz (clean q)); discriminate.
+Qed.
+Lemma try_pack_tight_iff ct pid sz q : snd (try_pack ct pid sz q) = negb (sz <=? currsz q).
+Proof. unfold try_pack. destruct (sz <=? currsz q); [reflexivity|]. destruct (sz <=? currsz (clean q)); reflexivity. Qed.
+Lemma try_pack_fits ct pid sz q : sz <= currsz q -> try_pack ct pid sz q = (Some (q ++ [new_entry ct pid sz]), false).
+Proof. intros H. unfold try_pack. apply Z.leb_le in H. rewrite H. reflexivity. Qed.
+
+(* results of the packet switch on two queues that differ in "sent" bits only *)
+Definition hrel (x y : hres4) : Prop :=
+  match x, y with (a1, d1, e1, t1), (a2, d2, e2, t2) => t1 = t2 /\ (t1 = false -> qeq a1 a2 /\ d1 = d2 /\ e1 = e2) end.
+
+Lemma try_pack_qeq ct pid sz q1 q2 : qeq q1 q2 ->
+  match try_pack ct pid sz q1, try_pack ct pid sz q2 with
+  | (r1, t1), (r2, t2) => t1 = t2 /\ (t1 = false -> exists a1 a2, r1 = Some a1 /\ r2 = Some a2 /\ qeq a1 a2) end.
+Proof.
+  intros Q. pose proof (try_pack_tight_iff ct pid sz q1) as T1. pose proof (try_pack_tight_iff ct pid sz q2) as T2.
+  rewrite (qeq_currsz _ _ Q) in T1.
+  destruct (try_pack ct pid sz q1) as [r1 t1] eqn:P1, (try_pack ct pid sz q2) as [r2 t2] eqn:P2. cbn [snd] in *.
+  assert (E : t1 = t2) by congruence. clear T1 T2. split; [exact E|]. intros F. subst t1. symmetry in E. subst t2.
+  apply try_pack_loose in P1. apply try_pack_loose in P2. destruct P1 as [-> _], P2 as [-> _].
+  eexists _, _. repeat split. apply qeq_app; [assumption|reflexivity].
+Qed.
+
+Lemma ff_connect : fire_and_forget CT_CONNECT = false. Proof. reflexivity. Qed.
+Lemma ff_pingreq : fire_and_forget CT_PINGREQ = false. Proof. reflexivity. Qed.
+
+Ltac ack_cases Q ct opid :=
+  let A := fresh "A" in
+  pose proof (ack_first_qeq (matches ct opid) _ _ Q) as A;
+  match type of A with (?P -> _) =>
+    let HP := fresh in assert (HP : P) by (intros ? ? ?; apply matches_strip; [intro; try discriminate; auto using ff_connect, ff_pingreq | assumption]);
+    specialize (A HP); clear HP end;
+  match type of A with match ?x, ?y with _ => _ end => destruct x, y; try contradiction end.
+
+Lemma hrel_simple a1 a2 d e : qeq a1 a2 -> hrel (a1, d, e, false) (a2, d, e, false).
+Proof. intros; split; auto. Qed.
+
+Lemma handle_qeq r q1 q2 : qeq q1 q2 -> hrel (handle r q1) (handle r q2).
+Proof.
+  intros Q. destruct r as [code|dup qos retain toff tlen poff plen pid|ct pid|pid code0|pid|]; cbn [handle].
+  - ack_cases Q CT_CONNECT (@None Z); [|apply hrel_simple; assumption].
+    destruct (code =? CONNACK_ACCEPTED); [apply hrel_simple; assumption|].
+    destruct (code =? CONNACK_ID_REJECTED); apply hrel_simple; assumption.
+  - destruct (qos =? 1).
+    { pose proof (try_pack_qeq CT_PUBACK pid 4 q1 q2 Q) as T.
+      destruct (try_pack CT_PUBACK pid 4 q1) as [r1 t1], (try_pack CT_PUBACK pid 4 q2) as [r2 t2].
+      destruct T as [-> T]. destruct t2.
+      - destruct r1, r2; split; auto; discriminate.
+      - destruct (T eq_refl) as (a1 & a2 & -> & -> & QQ). apply hrel_simple; assumption. }
+    destruct (qos =? 2); [|apply hrel_simple; assumption].
+    rewrite (existsb_qeq (matches CT_PUBREC (Some pid)) q1 q2 Q)
+      by (intros; apply matches_strip; [intro; discriminate|assumption]).
+    destruct (existsb _ q2); [apply hrel_simple; assumption|].
+    pose proof (try_pack_qeq CT_PUBREC pid 4 q1 q2 Q) as T.
+    destruct (try_pack CT_PUBREC pid 4 q1) as [r1 t1], (try_pack CT_PUBREC pid 4 q2) as [r2 t2].
+    destruct T as [-> T]. destruct t2.
+    + destruct r1, r2; split; auto; discriminate.
+    + destruct (T eq_refl) as (a1 & a2 & -> & -> & QQ). apply hrel_simple; assumption.
+  - destruct (ct =? CT_PUBACK).
+    { ack_cases Q CT_PUBLISH (Some pid); apply hrel_simple; assumption. }
+    destruct (ct =? CT_PUBREC).
+    { rewrite (existsb_qeq (matches CT_PUBREL (Some pid)) q1 q2 Q)
+        by (intros; apply matches_strip; [intro; discriminate|assumption]).
+      destruct (existsb _ q2); [apply hrel_simple; assumption|].
+      ack_cases Q CT_PUBLISH (Some pid); [|apply hrel_simple; assumption].
+      pose proof (try_pack_qeq CT_PUBREL pid 4 _ _ A) as T.
+      destruct (try_pack CT_PUBREL pid 4 l) as [r1 t1], (try_pack CT_PUBREL pid 4 l0) as [r2 t2].
+      destruct T as [-> T]. destruct t2.
+      - destruct r1, r2; split; auto; discriminate.
+      - destruct (T eq_refl) as (a1 & a2 & -> & -> & QQ). apply hrel_simple; assumption. }
+    destruct (ct =? CT_PUBREL).
+    { ack_cases Q CT_PUBREC (Some pid); [|apply hrel_simple; assumption].
+      pose proof (try_pack_qeq CT_PUBCOMP pid 4 _ _ A) as T.
+      destruct (try_pack CT_PUBCOMP pid 4 l) as [r1 t1], (try_pack CT_PUBCOMP pid 4 l0) as [r2 t2].
+      destruct T as [-> T]. destruct t2.
+      - destruct r1, r2; split; auto; discriminate.
+      - destruct (T eq_refl) as (a1 & a2 & -> & -> & QQ). apply hrel_simple; assumption. }
+    ack_cases Q CT_PUBREL (Some pid); apply hrel_simple; assumption.
+  - ack_cases Q CT_SUBSCRIBE (Some pid); [|apply hrel_simple; assumption].
+    destruct (code0 =? SUBACK_FAILURE); apply hrel_simple; assumption.
+  - ack_cases Q CT_UNSUBSCRIBE (Some pid); apply hrel_simple; assumption.
+  - ack_cases Q CT_PINGREQ (@None Z); apply hrel_simple; assumption.
+Qed.
